@@ -65,7 +65,7 @@ def gauss_cases(fam, rng):
             k += S * C
             while len(part) < S * C:
                 part.append(gs[rng.randrange(len(gs))])
-            cases.append(dict(h=H, w=W, s=S, c=C, thr=200, scale=1, maps=[g["v"] for g in part], ps=[3, 5, 7],
+            cases.append(dict(h=H, w=W, s=S, c=C, thr=200, scale=1, maps=[g["v"] for g in part], ps=[3, 4, 5, 6, 7],
                               gauss=[[g["cx4"], g["cy4"]] for g in part], style="gauss"))
     return cases
 
@@ -192,7 +192,7 @@ def run(tier, seed):
         "integral offsets are compared with the exact rational Offset up to the slack stated in Peaks.tla (TolQ); ill-conditioned patches (condition > 4096) are exempt from conformance, not from the bound",
         "the Gaussian clause is claimed for interior bumps only (patch inside the map) and centres not on half-cell ties; 'closer' is per axis (implies Euclidean)",
         "refinement is judged relative to the cell the rough step reported for the same input",
-        "patch sizes are odd (3, 5, 7)",
+        "patch sizes 3, 5, 7 everywhere; even sizes 4 and 6 on the Gaussian family (bound, symmetric => unmoved, closer - no cell-based offset conformance)",
     ]
     return res
 
